@@ -101,12 +101,6 @@ ALLOW = {
         'capacity argument: buffer/len are written only by write_str/write_code (C04|allowlist links), which are called only from the 8 builder chains whose literal lengths + 3 bytes per code total <= DISPLAY_BUFFER_CAPACITY = 19 (C05|templates capacity-covers-longest-chain)',
     'anstyle::color::DisplayBuffer::as_str|call:index:$self.buffer[Range{start:_0,_end:_$self.len}]':
         'len <= 19 = buffer.len() by the same capacity argument',
-    'anstyle::effect::Effects::write_to|BoundsCheck:anstyle::effect::METADATA[$index]':
-        'index comes from Effects::index_iter(), whose next() yields only index < METADATA.len() (C13|iterators bound-is-METADATA.len())',
-    '<anstyle::effect::Effects_as_core::fmt::Debug>::fmt|BoundsCheck:anstyle::effect::METADATA[$index]':
-        'index comes from Effects::index_iter(), whose next() yields only index < METADATA.len() (C13|iterators bound-is-METADATA.len())',
-    '<anstyle::effect::EffectsDisplay_as_core::fmt::Display>::fmt|BoundsCheck:anstyle::effect::METADATA[$index]':
-        'index comes from Effects::index_iter(), whose next() yields only index < METADATA.len() (C13|iterators bound-is-METADATA.len())',
     'anstyle_git::parse_color|call:index:$hex[Range{start:_0,_end:_($l_Div_3)}]':
         'hex consists of ASCII hex digits only (C04|str-slice / C11|hex-guard) so byte offsets are char boundaries, hex.len() is 3 or 6 and l = len/3, so 3*l = len',
     'anstyle_git::parse_color|call:index:$hex[Range{start:_($l_Div_3),_end:_(2_Mul_($l_Div_3))}]':
